@@ -323,6 +323,52 @@ func c19Drive(args []string) int {
 			}
 		}
 	}
+	// one text under several parsing regimes in one process, in both orders: the smart parser (month first), explicit layouts
+	// that read the same characters differently, layouts with and without a zone: every call answers for its own arguments
+	{
+		type call struct {
+			desc string
+			f    func() (string, error)
+			want string // "" = must be an error
+		}
+		mk := func(text string) []call {
+			return []call{
+				{"smart parser", func() (string, error) { return customfuncs.DateTimeToRFC3339(nil, text, "", "") }, "2021-03-04T10:00:00"},
+				{"layout 02/01/2006 15:04:05", func() (string, error) {
+					return customfuncs.DateTimeLayoutToRFC3339(nil, text, "02/01/2006 15:04:05", "false", "", "")
+				}, "2021-04-03T10:00:00"},
+				{"layout 01/02/2006 15:04:05 from Asia/Tokyo", func() (string, error) {
+					return customfuncs.DateTimeLayoutToRFC3339(nil, text, "01/02/2006 15:04:05", "false", "Asia/Tokyo", "")
+				}, "2021-03-04T10:00:00+09:00"},
+				{"layout 2006-01-02 (does not fit)", func() (string, error) {
+					return customfuncs.DateTimeLayoutToRFC3339(nil, text, "2006-01-02", "false", "", "")
+				}, ""},
+				{"epoch, smart parser from UTC", func() (string, error) { return customfuncs.DateTimeToEpoch(nil, text, "UTC", "SECOND") }, "1614852000"},
+			}
+		}
+		text := "03/04/2021 10:00:00"
+		for _, order := range [][]int{{0, 1, 2, 3, 4}, {4, 3, 2, 1, 0}, {1, 0, 3, 2, 4}, {2, 4, 0, 1, 3}} {
+			// every order on a text of its own (whatever an earlier call left behind for that text is met by the later ones)
+			text = strings.Replace(text, "10:00:00", fmt.Sprintf("10:00:%02d", len(order)+order[0]+order[1]*5), 1)
+			cs := mk(text)
+			sec := text[len(text)-2:]
+			for _, k := range order {
+				c := cs[k]
+				got, err := c.f()
+				want := strings.Replace(c.want, "10:00:00", "10:00:"+sec, 1)
+				if k == 4 {
+					var secs int
+					fmt.Sscanf(sec, "%d", &secs)
+					want = fmt.Sprint(1614852000 + secs)
+				}
+				ok := (c.want == "" && err != nil) || (c.want != "" && err == nil && got == want)
+				sum.eval(true, M{"regime": c.desc, "text": text})
+				if !ok {
+					violation("C19", "regime-"+c.desc, fmt.Sprintf("%q through %s (after other readings of the same text): expected %q (\"\" = an error), got %q %v", text, c.desc, want, got, err), M{"text": text, "order": order})
+				}
+			}
+		}
+	}
 	// empty in, empty out; unparsable in, error out
 	for fi, f := range []func(string) (string, error){
 		func(s string) (string, error) { return customfuncs.DateTimeToRFC3339(nil, s, "UTC", "Asia/Tokyo") },
